@@ -31,6 +31,38 @@ def kinds_oracle(case, obs):
     return 'ok'
 
 
+def appender_oracle(case, obs):
+    kind, script = case.split()
+    p = obs.split(' | ')
+    if len(p) != 3:
+        return 'bad-observation'
+    outs, ids, fds = p[0].split(','), [x for x in p[1].split(',') if x], int(p[2])
+    if len(outs) != len(script):
+        return 'bad-observation'
+    started, n, required = False, 0, []
+    for ch, o in zip(script, outs):
+        if o.startswith('panic'):
+            return 'an appender call panicked: %s at %s' % (o, ch)
+        if ch == 'S':
+            if o != 'ok':
+                return 'Start failed'
+            started = True
+        elif ch == 'X':
+            started = False
+        else:
+            if started:
+                required.append(str(n))
+            n += 1
+    it = iter(ids)
+    if not all(any(x == r for x in it) for r in required):
+        return 'lines written between Start and Stop are not all readable in order: want %s got %s' % (','.join(required), ','.join(ids))
+    if len(set(ids)) != len(ids):
+        return 'a line is there twice'
+    if script.endswith('X') and kind != 'console' and fds != 0:
+        return 'open-descriptors-after-stop:%d' % fds
+    return 'ok'
+
+
 def check(run):
     rng = run.rng
     quick = run.tier == 'quick'
@@ -79,6 +111,26 @@ def check(run):
             run.stream('c05/logger-kinds', len(kcases), len(kcases), False, 'Refresh-built loggers of every kind (sync/async with file appender, console, file, rolling sync/async with/without .wf, rolling appender), '
                        'with/without logger layout; events + raw writes (with nil and empty raw writes in between), then Destroy under a watchdog; sinks read immediately; descriptors into the log directory counted before/after')
             run.coverage['samples'].append({'stream': 'c05/logger-kinds', 'case': kcases[0], 'observation': io[0][:200]})
+        # 3. appenders built directly: Stop once or twice, Stop without Start, Start again after Stop, writes outside Start..Stop
+        acases = []
+        for kind in ('file', 'rolling', 'console'):
+            for script in ('SwwX', 'SwwXX', 'X', 'XX', 'SX', 'SXX', 'SwXSwwX', 'SwXSwXX', 'SwXwX', 'SwXXSwXXX', 'SwwwXXwX'):   # never a write before the first Start: that is misuse, not a lifecycle
+                acases.append('%s %s' % (kind, script))
+        common.write_lines(tmp + '/a', acases)
+        rc, li = common.run_impl('c05a', tmp + '/a', tmp + '/ai', timeout=600)
+        ao = common.read_lines(tmp + '/ai')
+        run.obligations += 1
+        if rc != 0 or len(ao) != len(acases):
+            run.add_violation('harness-error', 'c05a rc=%s lines=%d/%d %s' % (rc, len(ao), len(acases), li[-1500:]), [li[-2000:]], no_input=True)
+        else:
+            bada = [(c, o, appender_oracle(c, o)) for c, o in zip(acases, ao)]
+            bada = [b for b in bada if b[2] != 'ok']
+            for c, o, v in bada[:3]:
+                run.add_violation('oracle:c05/appender-scripts', v, ['family c05a', 'case ' + c, 'impl ' + o[:1000], 'verdict ' + v])
+            if not bada:
+                run.discharged += 1
+            run.stream('c05/appender-scripts', len(acases), len(acases), True, 'File / RollingFile / Console appenders built directly and driven by scripts over {Start, write, Stop}: Stop once, twice and three times, Stop without Start, '
+                       'Start again after Stop, writes after a Stop; no call may panic, every line written between a Start and the next Stop is readable in order, no descriptor stays open after the last Stop')
     finally:
         shutil.rmtree(tmp, ignore_errors=True)
     return 'see streams'
@@ -86,6 +138,20 @@ def check(run):
 
 def replay(run, path):
     lines = common.read_lines(path)
+    if any(l.startswith('family c05a') for l in lines):
+        cases = [l[5:] for l in lines if l.startswith('case ')]
+        tmp = common.scratch_dir('c05r')
+        common.write_lines(tmp + '/c', cases)
+        common.run_impl('c05a', tmp + '/c', tmp + '/i')
+        rc = 0
+        for c, o in zip(cases, common.read_lines(tmp + '/i')):
+            v = appender_oracle(c, o)
+            print(c, '\n impl:', o[:500], '\n verdict:', v)
+            if v != 'ok':
+                rc = 1
+                print('VIOLATION property=C05 replay=' + path)
+        shutil.rmtree(tmp, ignore_errors=True)
+        return rc
     fam = 'c05k' if any(l.startswith('family c05k') for l in lines) else 'c04'
     if fam == 'c04':
         return common.simple_replay('C05', 'c04', path, keep_empty=False)
